@@ -214,6 +214,9 @@ func (g *posaGen) run(long bool) {
 		if _, _, head, _, ok := f.canonLine(); ok {
 			g.handover(f.byHash[head])
 		}
+		if _, _, head, _, ok := f.canonLine(); ok {
+			g.twins(f.byHash[head])
+		}
 	}
 	g.do("junk")
 	g.do("state")
@@ -649,5 +652,79 @@ func (g *posaGen) handover(from string) {
 			return
 		}
 		cur = nxt
+	}
+}
+
+// twins: headers that differ from another submitted header ONLY in the 65 seal bytes (same signed fields, hence the same
+// seal hash, but another header hash): after a genuine header its twins sealed by an outsider, by an unrecoverable
+// signature and by another validator (coinbase unchanged) must all be refused; and a genuine header must still be
+// accepted after a twin with a bad seal was refused first.
+func (g *posaGen) twins(from string) {
+	r, f := g.r, g.f
+	tip := f.nodes[from]
+	if tip == nil || !tip.stored {
+		return
+	}
+	never := uint64(1) << 60
+	cbOf := func(id string) string {
+		t := strings.Fields(f.descr[id])
+		if len(t) == 13 {
+			return t[4]
+		}
+		return ""
+	}
+	note := func(kind, out string) {
+		cls := strings.Fields(out)[0]
+		r.Hist("twin." + kind + "." + cls)
+		r.Nontrivial(fmt.Sprintf("%s/twin/%s/%s", g.rt, kind, cls))
+	}
+	// genuine first
+	id, out := g.step(tip, "valid", never)
+	if id != "" && strings.HasPrefix(out, "ok") {
+		g.tips = append(g.tips, id)
+		anc := append([]*posaNode{tip}, mustAnc(f, tip)...)
+		in := map[int]bool{}
+		var members []int
+		for _, a := range f.inEffect(tip.num+1, anc) {
+			if k := idxOfAddr(a); k >= 0 {
+				in[k] = true
+				members = append(members, k)
+			}
+		}
+		cb := cbOf(id)
+		for _, k := range r.Rng.Perm(posaPool) {
+			if !in[k] {
+				note("after.outsider", g.do(fmt.Sprintf("twin %s %s s%d", g.label(), id, k)))
+				break
+			}
+		}
+		note("after.garbage", g.do(fmt.Sprintf("twin %s %s x", g.label(), id)))
+		for _, k := range members {
+			if strconv.Itoa(k) != cb {
+				note("after.other-validator", g.do(fmt.Sprintf("twin %s %s s%d", g.label(), id, k)))
+				break
+			}
+		}
+		note("after.genuine-again", g.do(f.descr[id]))
+		tip = f.nodes[id]
+	}
+	// bad seal first, then the genuine twin
+	for _, mut := range []string{"cb-mismatch", "seal-x", "seal-w"} {
+		bad, out := g.step(tip, mut, never)
+		if bad == "" {
+			continue
+		}
+		note("before."+mut, out)
+		cb := cbOf(bad)
+		if cb == "" || cb == "z" || cb == "-1" {
+			continue
+		}
+		gid := g.label()
+		out = g.do(fmt.Sprintf("twin %s %s s%s", gid, bad, cb))
+		note("before.genuine-after-"+mut, out)
+		if strings.HasPrefix(out, "ok") {
+			g.tips = append(g.tips, gid)
+			tip = f.nodes[gid]
+		}
 	}
 }
